@@ -335,7 +335,10 @@ def discovery_worker(args):
             k = streak.get((label, op), 0)
             f = plan(label, op, k) if k < 4 else False
             streak[(label, op)] = k + 1 if f else 0
+            if f and k + 1 >= 3:
+                abandoned.append((label, op))
             return f
+        abandoned = []
         net.fault = fault
         problem = None
         try:
@@ -344,7 +347,9 @@ def discovery_worker(args):
             return 'discover() raised %s: %s' % (type(ex).__name__, ex), None
         after = view(ls)
         net.fault = None
-        if r is False:
+        if r is True and abandoned:
+            problem = 'discovery reported success although %s never answered %s (three attempts)' % abandoned[0]
+        elif r is False:
             if after != before:
                 problem = 'failed discovery changed the directory: %r -> %r' % (before, after)
         elif r is True:
@@ -352,16 +357,35 @@ def discovery_worker(args):
                 problem = 'successful discovery lists %r' % (after[0],)
             else:
                 # every discovered light must be usable: address each with each command kind
+                mark = len(net.trace)
                 p = Parser()
                 p.parse(USE_SCRIPT)
                 m = Machine()
                 m.reset()
                 m.run(p.get_program())
+                used = [tuple(repr(x) for x in e) for e in net.trace[mark:]]
                 if net.aborted:
                     problem = 'discovery reported success, but the lights it built abort a script: %s' % net.aborted
+                elif reference.get('trace') is None:
+                    reference['trace'] = used              # first call: the fault-free discovery
+                elif used != reference['trace']:
+                    diff = next((i for i, (a, b) in enumerate(zip(used, reference['trace'])) if a != b), min(len(used), len(reference['trace'])))
+                    problem = ('discovery reported success, but its lights do not take commands like those of a fault-free discovery: command #%d is %s, expected %s'
+                               % (diff + 1, used[diff] if diff < len(used) else 'missing', reference['trace'][diff] if diff < len(reference['trace']) else 'nothing'))
         else:
             problem = 'discover() returned %r' % (r,)
         return problem, r
+
+    reference = {}
+    saved0 = symx.Ctx.cur
+    symx.Ctx.cur = None
+    try:
+        p0, r0 = scenario(lambda label, op, k: False)      # fault-free discovery: what the lights do with the script
+    finally:
+        symx.Ctx.cur = saved0
+    if p0 is not None or r0 is not True or not reference.get('trace'):
+        res.error = 'fault-free reference discovery failed: %r %r' % (p0, r0)
+        return res
 
     def harness(ctx):
         log = []
